@@ -115,6 +115,51 @@ def rule_creation_registers(ck, facts):
     ck.floor(R, "closure_allocating_arms", n, 2)
 
 
+_WK = {}
+
+
+def walkers_by_role(facts):
+    """the five recursive walkers over `Type`, by what they do (their names are free to change):
+       clone / release / close : the MIR generator's inserters (emit CloneHeap|CloneUserSum|BoxClone / ReleaseUserSum|
+                                 BoxRelease / CloseHeapClosure only), recursive over Type
+       vm_clone / vm_release   : the VM's run-time walkers (reach heap_retain / heap_release), recursive over Type"""
+    key = id(facts)
+    if key in _WK:
+        return _WK[key]
+    lang = facts.crate(roles.LANG)
+    out = {}
+    for f in lang.fns:
+        if f.kind not in ("assoc", "fn") or "::test" in f.path:
+            continue
+        cov = cover.coverage(facts, f, roles.TYPE)
+        if cov is None or cov.primary is None:
+            continue
+        if not any((callee(t) or "") == f.path for g in facts.family(roles.LANG, f.root) for _, t in g.calls()):
+            continue
+        if "::compiler::mirgen" in f.path:
+            emits = {s2[5][1][3] for _, s2 in f.all_stmts() if s2[KIND] == "a" and s2[5][0] == "agg" and s2[5][1][0] == "adt" and s2[5][1][1] == roles.MIR_INSTR}
+            if emits & {"CloneHeap", "CloneUserSum", "BoxClone"}:
+                out["clone"] = f
+            elif emits & {"ReleaseUserSum", "BoxRelease"}:
+                out["release"] = f
+            elif "CloseHeapClosure" in emits:
+                out["close"] = f
+        elif "::runtime::vm" in f.path:
+            hc = {(callee(t) or "").split("::")[-1] for _, t in f.calls() if "heap" in (callee(t) or "")}
+            if "heap_retain" in hc:
+                out["vm_clone"] = f
+            elif "heap_release" in hc:
+                out["vm_release"] = f
+    _WK[key] = out
+    return out
+
+
+def _walker(facts, old_name):
+    """the walker that used to be looked up by the name `old_name`"""
+    role = {"insert_clone_recursively": "clone", "insert_release_recursively": "release", "insert_close_closures_recursively": "close", "clone_usersum_recursive": "vm_clone", "release_usersum_recursive": "vm_release"}[old_name]
+    return walkers_by_role(facts).get(role)
+
+
 def rule_walkers(ck, facts):
     R = "C12.walkers"
     ck.rule(R, "the recursive clone and release walkers over Type (compiler inserters and VM run-time walkers) have explicit arms for the same Type variants; the close-closures inserter handles a subset of them")
@@ -128,9 +173,9 @@ def rule_walkers(ck, facts):
         for nm in (cl, rl, cc):
             if nm is None:
                 continue
-            fs = [f for f in lang.fns if f.short.endswith("::" + nm) and f.kind in ("assoc", "fn")]
-            if fs:
-                covs[nm] = cover.coverage(facts, fs[0], roles.TYPE)
+            wf = _walker(facts, nm)
+            if wf is not None:
+                covs[nm] = cover.coverage(facts, wf, roles.TYPE)
         ck.require(R, cl in covs and rl in covs and covs[cl] and covs[rl], "anchor|%s" % gname, "%s clone/release walkers not found" % gname)
         if not (cl in covs and rl in covs and covs[cl] and covs[rl]):
             continue
@@ -155,9 +200,9 @@ def rule_walker_recursion(ck, facts):
     lang = facts.crate(roles.LANG)
     fs = {}
     for nm in WALKERS:
-        c = [f for f in lang.fns if f.short.endswith("::" + nm) and f.kind in ("assoc", "fn")]
-        if c:
-            fs[nm] = c[0]
+        wf = _walker(facts, nm)
+        if wf is not None:
+            fs[nm] = wf
     paths = {f.path: nm for nm, f in fs.items()}
     n = 0
     for nm, f in fs.items():
@@ -197,7 +242,7 @@ def rule_vm_walker_offsets(ck, facts):
     lang = facts.crate(roles.LANG)
     verdicts = {}
     for nm in ("clone_usersum_recursive", "release_usersum_recursive"):
-        c = [f for f in lang.fns if f.short.endswith("::" + nm) and f.kind in ("assoc", "fn")]
+        c = [x for x in [_walker(facts, nm)] if x is not None]
         ck.require(R, len(c) == 1, "anchor|%s" % nm, "VM walker %s not found" % nm)
         if len(c) != 1:
             continue
@@ -251,7 +296,7 @@ def rule_vm_walker_offsets(ck, facts):
     from ..rules.guards import FLIP, Terms
     rels = {}
     for nm in ("clone_usersum_recursive", "release_usersum_recursive"):
-        c = [f for f in lang.fns if f.short.endswith("::" + nm) and f.kind in ("assoc", "fn")]
+        c = [x for x in [_walker(facts, nm)] if x is not None]
         if len(c) != 1:
             continue
         f = c[0]
@@ -307,8 +352,7 @@ def rule_pairing(ck, facts, cg):
     R = "C12.pairing"
     ck.rule(R, "reference counts are paired: (instr) for every Type variant whose clone inserter emits an instruction that the VM executes as a retain, the release inserter emits an instruction the VM executes as a release; (scope) every place of the MIR generator that clones a value for a new owner — an argument of a call, a name bound by a match pattern — has a release for that owner where its scope ends (the callee's exit, the end of the arm)")
     lang = facts.crate(roles.LANG)
-    get = lambda nm: next((f for f in lang.fns if f.short.endswith("::" + nm) and f.kind in ("assoc", "fn")), None)
-    clone_f, rel_f = get("insert_clone_recursively"), get("insert_release_recursively")
+    clone_f, rel_f = _walker(facts, "insert_clone_recursively"), _walker(facts, "insert_release_recursively")
     ck.require(R, clone_f is not None and rel_f is not None, "anchor|inserters", "clone / release inserters not found")
     vd = roles.vm_dispatch(facts)
     ck.require(R, vd is not None, "anchor|vm-dispatch", "VM dispatch not found")
@@ -368,7 +412,7 @@ def rule_pairing(ck, facts, cg):
     m = 0
     for root, fam in sorted(byroot.items()):
         short = root.split("::")[-1]
-        if short in ("insert_clone_recursively", "insert_release_recursively", "insert_close_closures_recursively"):
+        if root in {w.path for w in walkers_by_role(facts).values()}:
             continue
         clones = [(g, t) for g in fam for _, t in g.calls() if (callee(t) or "") == clone_f.path]
         if not clones:
